@@ -18,7 +18,7 @@ pub fn prop() -> Prop {
         check,
         quick_runs: 16_000,
         both_profiles: false,
-        rule: "a run = a TCP script: traffic on a first connection, then a fault sequence of length 0-12 over {refuse (refused/timed out/unreachable), accept+close, accept+frames+close, accept+partial line (cut at any digit offset, often exactly 14) +reset/timeout/broken pipe, accept+junk bytes, EINTR}, then a healthy connection with fresh traffic; refusal pauses are simulated (5 s each) so some aircraft must survive the interruption and some must expire; -f subsets incl. filters that let nothing of a connection through; the wall clock may be set back between two refused attempts; non-trivial = at least one fault connection and one frame on the final healthy connection; distinct = distinct scripts",
+        rule: "a run = a TCP script: traffic on a first connection, then a fault sequence of length 0-12 over {refuse (refused/timed out/unreachable), accept+close, accept+frames+close, accept+partial line (cut at any digit offset, often exactly 14) +reset/timeout/broken pipe, accept+junk bytes, EINTR}, in 8 % of the runs a session that turns to noise (frames, then 30-90 malformed lines in a row, then it drops), then a healthy connection with fresh traffic (a quarter open with a malformed line, 5 % carry a run of 30-90 malformed lines between their frames); refusal pauses are simulated (5 s each) so some aircraft must survive the interruption and some must expire; -f subsets incl. filters that let nothing of a connection through; the wall clock may be set back between two refused attempts; non-trivial = at least one fault connection and one frame on the final healthy connection; distinct = distinct scripts",
         level_text: "seeded search over TCP fault sequences with simulated retry pauses; oracle: reader never returns or panics, healthy connection is read to its end and its frames are applied, retry pause after a refused attempt is 3..8 s, rows heard within delete_after survive every interruption unchanged, partial last lines that are not frames change nothing",
     }
 }
